@@ -402,7 +402,7 @@ def pipe_resilient(exe, lines, per_line_timeout=20.0, env=None):
         return tuple(l.split("\t")[:2])
     while i < n:
         if key(lines[i]) in dead:
-            out.append("TIMEOUT")
+            out.append("SKIPPED")        # not run: an earlier request for this grammar hung
             i += 1
             continue
         p = subprocess.Popen([exe], stdin=subprocess.PIPE, stdout=subprocess.PIPE, stderr=subprocess.DEVNULL,
